@@ -54,6 +54,8 @@ struct OpTask {
 	int          last_rv;
 	int          completed_ops;
 	uint64_t     t_done;
+	std::vector<nng_listener> ls; // kind 10: listeners to close one by one
+	std::vector<nng_dialer>   ds; // kind 10: dialers to close one by one
 };
 
 struct World {
@@ -65,6 +67,7 @@ struct World {
 	std::vector<OpTask *> ops;
 	volatile int     closed_sock; // set once nng_socket_close(a) has RETURNED
 	volatile int     closing;
+	volatile int     closing_sock; // the final nng_socket_close is about to be called
 	std::vector<uint32_t> pipes; // pipe ids of A seen in ADD_POST
 	volatile int     peer_stop;
 	uint64_t         cb_delay_ns; // a slow ADD_POST callback (keeps the listener from accepting meanwhile)
@@ -165,6 +168,72 @@ op_task(void *a)
 				rv = NNG_ETIMEDOUT; // not a message operation: keep looping
 				sim_sleep_ns((uint64_t) W(0, 300) * 1000);
 			}
+			break;
+		}
+		case 9: {
+			// endpoints created on the socket while it may be closing: each either
+			// fails with NNG_ECLOSED or belongs to the socket, whose close takes it along
+			char u[64];
+			snprintf(u, sizeof(u), "inproc://c10-churn-%d-%d", o->idx, it);
+			bool own_close = W(0, 1) != 0;
+			if (W(0, 1)) {
+				nng_dialer dd;
+				rv = nng_dialer_create(&dd, w->a, u);
+				if (rv == 0) {
+					(void) nng_dialer_start(dd, NNG_FLAG_NONBLOCK);
+					if (own_close) {
+						int crv;
+						BOUNDED_CALL(crv, nng_dialer_close(dd));
+						(void) crv;
+					}
+				}
+			} else {
+				nng_listener ll;
+				rv = nng_listener_create(&ll, w->a, u);
+				if (rv == 0) {
+					(void) nng_listener_start(ll, 0);
+					if (own_close) {
+						int crv;
+						BOUNDED_CALL(crv, nng_listener_close(ll));
+						(void) crv;
+					}
+				}
+			}
+			if (rv == 0) {
+				if (issued_after_close)
+					VIOL("closed_handle_usable", "an endpoint was created on the socket after nng_socket_close returned");
+				rv = NNG_ETIMEDOUT; // not a message operation: keep looping
+				if (it == 0 && W(0, 1))
+					(void) sim_wait_flag(&w->closing_sock, 20000000ull); // concentrate on the close itself
+				sim_sleep_ns((uint64_t) W(0, 60) * 1000);
+			}
+			break;
+		}
+		case 10: {
+			// endpoints of the socket closed one by one while the socket may be closing
+			if (it == 0) {
+				// start when the socket close is about to start (or a little earlier / later)
+				if (W(0, 3) != 0)
+					(void) sim_wait_flag(&w->closing_sock, 20000000ull);
+				else
+					sim_sleep_ns((uint64_t) W(0, 5000) * 1000);
+				sim_sleep_ns((uint64_t) W(0, 120) * 1000);
+			}
+			size_t n = o->ls.size() + o->ds.size();
+			if ((size_t) it >= n) {
+				rv = NNG_ENOENT;
+				break;
+			}
+			int crv;
+			if ((size_t) it < o->ls.size())
+				BOUNDED_CALL(crv, nng_listener_close(o->ls[(size_t) it]));
+			else
+				BOUNDED_CALL(crv, nng_dialer_close(o->ds[(size_t) it - o->ls.size()]));
+			if (crv != 0 && crv != NNG_ECLOSED && crv != NNG_ENOENT)
+				VIOL("close_failed", "closing an endpoint returned %d", crv);
+			rv = NNG_ETIMEDOUT;
+			if (W(0, 2) == 0)
+				sim_sleep_ns((uint64_t) W(0, 100) * 1000);
 			break;
 		}
 		case 6: {
@@ -281,6 +350,7 @@ close_run(Params *p)
 	int tr = (int) p->draw("tr", 0, 3);
 	w.closed_sock = 0;
 	w.closing     = 0;
+	w.closing_sock = 0;
 	w.peer_stop   = 0;
 	w.have_d = w.have_l = false;
 	w.cb_delay_ns = 0;
@@ -344,7 +414,30 @@ close_run(Params *p)
 		bool want_send = w.pp->a_send && (!w.pp->a_recv || W(0, 1) == 0);
 		bool use_ctx   = w.pp->a_ctx && W(0, 1) == 0;
 		bool use_aio   = !use_ctx && W(0, 2) == 0;
-		if (w.pp->a_ctx && W(0, 9) == 0) {
+		long esel = W(0, 11);
+		if (esel == 0) {
+			o->kind = 9;
+			sim_probe("c10_endpoint_churn");
+		} else if (esel == 1) {
+			o->kind = 10;
+			int ne = 2 + (int) W(0, 2);
+			for (int k = 0; k < ne; k++) {
+				char u[64];
+				snprintf(u, sizeof(u), "inproc://c10-ep-%d-%d", i, k);
+				if (W(0, 2) != 0) {
+					nng_listener ll;
+					if (nng_listener_create(&ll, w.a, u) == 0 && nng_listener_start(ll, 0) == 0)
+						o->ls.push_back(ll);
+				} else {
+					nng_dialer dd;
+					if (nng_dialer_create(&dd, w.a, u) == 0) {
+						(void) nng_dialer_start(dd, NNG_FLAG_NONBLOCK);
+						o->ds.push_back(dd);
+					}
+				}
+			}
+			sim_probe("c10_endpoints_closed_one_by_one");
+		} else if (w.pp->a_ctx && W(0, 9) == 0) {
 			o->kind = 8;
 			sim_probe("c10_ctx_open_loop");
 		} else if (W(0, 7) == 0) {
@@ -474,6 +567,7 @@ close_run(Params *p)
 		ct = sim_spawn("closer2", closer, &c2, 0);
 	sim_event("close socket A");
 	int rv;
+	w.closing_sock = 1;
 	BOUNDED_CALL(rv, nng_socket_close(w.a));
 	w.closed_sock = 1;
 	uint64_t dt = sim_now_ns() - t0 - (sim_stall_total_ns() - s0);
